@@ -189,6 +189,9 @@ func c04Handler(args []string, data []byte) string {
 		codec := newRawCodec(compOf(args[1]))
 		switch entry {
 		case "frame.DecodeFrame":
+			if len(data)%2 == 1 { // the decoders treat a *bytes.Buffer source specially (read in place by the compressors)
+				return guarded(func() error { _, err := codec.DecodeFrame(bytes.NewBuffer(append([]byte{}, data...))); return err })
+			}
 			return guarded(func() error { _, err := codec.DecodeFrame(bytes.NewReader(data)); return err })
 		case "frame.DecodeRawFrame":
 			return guarded(func() error { _, err := codec.DecodeRawFrame(bytes.NewReader(data)); return err })
@@ -202,6 +205,10 @@ func c04Handler(args []string, data []byte) string {
 		}
 		switch entry {
 		case "frame.DecodeBody":
+			if len(data)%2 == 1 {
+				rest, _ := io.ReadAll(r)
+				return guarded(func() error { _, err := codec.DecodeBody(h, bytes.NewBuffer(rest)); return err })
+			}
 			return guarded(func() error { _, err := codec.DecodeBody(h, r); return err })
 		case "frame.DecodeRawBody":
 			return guarded(func() error { _, err := codec.DecodeRawBody(h, r); return err })
@@ -859,6 +866,14 @@ func c04Property(rt *rapid.T) {
 			binary.BigEndian.PutUint32(hd[h-4:], uint32(len(cb)))
 			input = append(hd, cb...)
 			what += "+compressed"
+			// ... and now and then the header of that compressed frame declares a hostile body length
+			if rapid.IntRange(0, 3).Draw(rt, "hostileCompressedLength") == 0 {
+				binary.BigEndian.PutUint32(input[h-4:], rapid.SampledFrom([]uint32{0xffffffff, 0xfffffffe, 0x80000000, 0, 1, 4, 5, uint32(len(cb)) - 1, uint32(len(cb)) + 1}).Draw(rt, "declared"))
+				what += "+length"
+				if rapid.Bool().Draw(rt, "oddLength") && len(input)%2 == 0 {
+					input = append(input, 0) // odd input length selects the *bytes.Buffer source in the worker
+				}
+			}
 		}
 	}
 	verdict := isolated("c04", c.args, input)
